@@ -385,6 +385,9 @@ static void budget_random(const args_t *a, long idx)
 static const int FD[5] = {0, 1, 16, 31, 32};
 
 /* history: init | gen 33 | reseed | limit 64 | gen 200 (automatic requests at 64, 128, 192) | gen 40 */
+static int fault_run_b(const args_t *a, long idx, const int *script, int nscript, size_t custom_len, uint64_t entidx,
+                       uint8_t *stream, int judge);
+
 static int fault_run(const args_t *a, long idx, const int *script, int nscript, size_t custom_len, uint64_t entidx,
                      uint8_t *stream, int judge)
 {
@@ -432,6 +435,54 @@ static int fault_run(const args_t *a, long idx, const int *script, int nscript, 
     return (int)total;
 }
 
+/* history B: init | reseed | reseed | gen 40 | reseed | gen 100   (seeding calls back to back, nothing generated in
+ * between: every one of them must still consult the source and report its own delivery) */
+static int fault_run_b(const args_t *a, long idx, const int *script, int nscript, size_t custom_len, uint64_t entidx,
+                       uint8_t *stream, int judge)
+{
+    tinyjambu_prng_state_t st;
+    m_drbg_t sh;
+    static cb_t cb;
+    uint8_t custom[128];
+    rng_t r = rng_for(a->seed, 0xFA19, (uint64_t)idx);
+    size_t evi, total = 0, pos;
+    int rc, step;
+    static const int PLAN[6] = {1, 1, 0, 1, 0, -1};      /* 1 = reseed, 0 = generate */
+    static const size_t G[2] = {40, 100};
+    int gi = 0;
+    memset(custom, 0xC5, sizeof custom);
+    cb_reset(&cb, a->seed ^ 0x5EED, entidx, script, nscript, 1);
+    fill_random(&r, (uint8_t *)&st, sizeof st);
+    rc = tinyjambu_prng_init_user(&st, entropy_cb, &cb, custom_len ? custom : NULL, custom_len);
+    if (cb.nev != 1) { if (judge) emit_viol("init-entropy-request", "init made %zu requests", cb.nev); return -1; }
+    if (judge) { ++n_status; if ((rc != 0) != (cb.ev[0].ret == 32)) emit_viol("seed-status:init", "init returned %d for a delivery of %zu bytes", rc, cb.ev[0].ret); }
+    m_drbg_init(&sh, cb.ev[0].after, custom, custom_len);
+    evi = 1;
+    for (step = 0; PLAN[step] >= 0; ++step) {
+        if (PLAN[step]) {
+            rc = tinyjambu_prng_reseed(&st);
+            if (cb.nev != evi + 1) { if (judge) emit_viol("reseed-entropy-request", "explicit reseed #%d (no output since the previous seeding) made %zu entropy requests instead of one", step, cb.nev - evi); return -1; }
+            if (judge) { ++n_status; if ((rc != 0) != (cb.ev[evi].ret == 32)) emit_viol("seed-status:reseed", "reseed returned %d for a delivery of %zu bytes", rc, cb.ev[evi].ret); }
+            m_drbg_reseed(&sh, cb.ev[evi].after); ++evi;
+        } else {
+            size_t n = G[gi++];
+            lib_generate(&st, &cb, n, &r);
+            for (pos = 0; pos < n; ) {
+                size_t l = n - pos < 32 ? n - pos : 32;
+                if (m_drbg_needs_reseed(&sh)) {
+                    if (evi >= cb.nev || cb.ev[evi].off != pos) { if (judge) emit_viol("auto-reseed-missing-or-misplaced", "expected an entropy request at offset %zu of generate(%zu)", pos, n); return -1; }
+                    m_drbg_reseed(&sh, cb.ev[evi].after); ++evi;
+                }
+                m_drbg_block(&sh, g_exp + pos, l); pos += l;
+            }
+            if (judge && memcmp(g_out, g_exp, n)) { emit_viol("fault-stream-mismatch", "history B: output differs from the shadow model fed with the bytes actually delivered"); return -1; }
+            memcpy(stream + total, g_out, n); total += n;
+        }
+    }
+    tinyjambu_prng_free(&st);
+    return (int)total;
+}
+
 static void fault_pattern(const args_t *a, long idx, const int *script, int nscript, size_t custom_len)
 {
     uint8_t s1[400], s2[400];
@@ -442,6 +493,8 @@ static void fault_pattern(const args_t *a, long idx, const int *script, int nscr
     ++n_eval; ++n_patterns;
     cls_add(mix64(0xFA17, (uint64_t)idx));
     if (idx % 211 == 0 || a->only >= 0) emit_sample();
+    /* history B first (its own verdicts), then history A whose stream is inspected below */
+    if (fault_run_b(a, idx, script, nscript, custom_len, (uint64_t)idx * 2 + 7, s2, 1) < 0) return;
     t1 = fault_run(a, idx, script, nscript, custom_len, (uint64_t)idx * 2, s1, 1);
     if (t1 < 0) return;
     /* usable: 32-byte blocks of the stream are pairwise distinct and not constant bytes */
